@@ -19,6 +19,7 @@ import (
 	"testing/synctest"
 
 	"github.com/btcsuite/btcd/chainhash/v2"
+	"github.com/btcsuite/btcd/wire/v2"
 	"github.com/lightningnetwork/lnd/chainntnfs"
 	"github.com/lightningnetwork/lnd/channeldb"
 	"github.com/lightningnetwork/lnd/kvdb"
@@ -32,6 +33,9 @@ type ClientSpec struct {
 	Kind string `json:"kind"`
 	// N is the number of confirmations (conf clients only).
 	N uint32 `json:"n,omitempty"`
+	// Obj selects the watched object: 0 = (T, O), the only one of the single-object
+	// spaces; 1 = the unrelated second transaction U / outpoint O' of the pair spaces.
+	Obj int `json:"obj,omitempty"`
 }
 
 func (c ClientSpec) isConf() bool { return c.Kind == "txid" || c.Kind == "script" }
@@ -63,6 +67,10 @@ type Stats struct {
 	NotifierCalls, HintCommits                 atomic.Int64
 	StaleCandidates                            atomic.Int64
 	ProbeStates, ProbeSkipped, ProbeSuffixes   atomic.Int64
+	// pair spaces (per-cell visibility of the coincidences the family exists for):
+	// operations that ended with two live registrations of DIFFERENT objects whose events
+	// sit in the same block / whose confirmations are both queued for the same height
+	PairSameEventHeight, PairSameMaturityPending atomic.Int64
 }
 
 type reportFn func(sig, what string, hist []string, p Params)
@@ -90,16 +98,51 @@ type client struct {
 	done    bool
 }
 
-func (c *client) reqID() string {
-	switch c.spec.Kind {
+func (c *client) reqID() string { return c.spec.reqID() }
+
+// reqID names the notifier-side request a client slot belongs to: "ct"/"cs"/"so"/"ss"
+// for object 0, with a trailing "2" for object 1.
+func (c ClientSpec) reqID() string {
+	id := "ss"
+	switch c.Kind {
 	case "txid":
-		return "ct"
+		id = "ct"
 	case "script":
-		return "cs"
+		id = "cs"
 	case "op":
-		return "so"
+		id = "so"
 	}
-	return "ss"
+	if c.Obj == 1 {
+		id += "2"
+	}
+	return id
+}
+
+// reqOf decodes a request id: confirmation or spend request, keyed by txid/outpoint or
+// by script only, and its object.
+func reqOf(id string) (isConf, keyed bool, obj int) {
+	if strings.HasSuffix(id, "2") {
+		obj = 1
+	}
+	return id[0] == 'c', id[1] == 't' || id[1] == 'o', obj
+}
+
+func confReq(keyed bool, obj int) chainntnfs.ConfRequest {
+	var txid *chainhash.Hash
+	if keyed {
+		txid = &uni.obj[obj].hT
+	}
+	r, _ := chainntnfs.NewConfRequest(txid, uni.obj[obj].pkT)
+	return r
+}
+
+func spendReq(keyed bool, obj int) chainntnfs.SpendRequest {
+	var op *wire.OutPoint
+	if keyed {
+		op = &uni.obj[obj].O
+	}
+	r, _ := chainntnfs.NewSpendRequest(op, uni.obj[obj].pkO)
+	return r
 }
 
 type world struct {
@@ -267,12 +310,12 @@ func getDB() (*pooledDB, error) {
 	return p, nil
 }
 
-func allRequests() ([]chainntnfs.ConfRequest, []chainntnfs.SpendRequest) {
-	c1, _ := chainntnfs.NewConfRequest(&uni.hT, uni.pkT)
-	c2, _ := chainntnfs.NewConfRequest(nil, uni.pkT)
-	s1, _ := chainntnfs.NewSpendRequest(&uni.O, uni.pkO)
-	s2, _ := chainntnfs.NewSpendRequest(nil, uni.pkO)
-	return []chainntnfs.ConfRequest{c1, c2}, []chainntnfs.SpendRequest{s1, s2}
+func allRequests() (cr []chainntnfs.ConfRequest, sr []chainntnfs.SpendRequest) {
+	for obj := range uni.obj {
+		cr = append(cr, confReq(true, obj), confReq(false, obj))
+		sr = append(sr, spendReq(true, obj), spendReq(false, obj))
+	}
+	return cr, sr
 }
 
 func putDB(p *pooledDB, dirty bool) {
@@ -446,15 +489,14 @@ func (w *world) contentOK(x string) bool {
 		return false
 	}
 	for _, n := range contentTxs[x] {
-		switch n {
-		case "T":
-			if b, _ := w.chain.confOf(0, maxHeight); b != nil {
+		// a transaction is on a chain at most once; conflicting spenders exclude each other
+		obj, isConf := objOfTx(n)
+		if isConf {
+			if b, _ := w.chain.confOf(obj, 0, maxHeight); b != nil {
 				return false
 			}
-		default:
-			if b, _ := w.chain.spendOf(0, maxHeight); b != nil {
-				return false
-			}
+		} else if b, _ := w.chain.spendOf(obj, 0, maxHeight); b != nil {
+			return false
 		}
 	}
 	return true
@@ -483,19 +525,10 @@ func (w *world) cacheEntryRaw(id string) (uint32, bool) {
 		v   uint32
 		err error
 	)
-	switch id {
-	case "ct":
-		r, _ := chainntnfs.NewConfRequest(&uni.hT, uni.pkT)
-		v, err = w.cache.QueryConfirmHint(r)
-	case "cs":
-		r, _ := chainntnfs.NewConfRequest(nil, uni.pkT)
-		v, err = w.cache.QueryConfirmHint(r)
-	case "so":
-		r, _ := chainntnfs.NewSpendRequest(&uni.O, uni.pkO)
-		v, err = w.cache.QuerySpendHint(r)
-	default:
-		r, _ := chainntnfs.NewSpendRequest(nil, uni.pkO)
-		v, err = w.cache.QuerySpendHint(r)
+	if isConf, keyed, obj := reqOf(id); isConf {
+		v, err = w.cache.QueryConfirmHint(confReq(keyed, obj))
+	} else {
+		v, err = w.cache.QuerySpendHint(spendReq(keyed, obj))
 	}
 	return v, err == nil
 }
@@ -545,10 +578,10 @@ func (w *world) hintOK(c *client, h string) bool {
 		return true
 	}
 	if c.spec.isConf() {
-		b, _ := w.chain.confOf(0, v-1)
+		b, _ := w.chain.confOf(c.spec.Obj, 0, v-1)
 		return b == nil
 	}
-	b, _ := w.chain.spendOf(0, v-1)
+	b, _ := w.chain.spendOf(c.spec.Obj, 0, v-1)
 	return b == nil
 }
 
@@ -792,7 +825,7 @@ func (w *world) disconnect() {
 			if !c.spec.isConf() {
 				kind = "Reorg"
 			}
-			w.violate(fmt.Sprintf("iii-no-reorg-notice/%s/n%d", c.spec.Kind, c.spec.N),
+			w.violate(fmt.Sprintf("iii-no-reorg-notice/%s/n%d%s", c.spec.Kind, c.spec.N, objTag(c.spec.Obj)),
 				fmt.Sprintf("client %d holds a notification for block %d which was just disconnected, and was sent no %s", i, b.height, kind))
 			return
 		}
@@ -841,7 +874,7 @@ func (w *world) window() {
 		w.drain("dis", b)
 		for i, c := range w.clients {
 			if !w.dead && c.reg && c.needNeg {
-				w.violate(fmt.Sprintf("iii-no-reorg-notice/%s/n%d", c.spec.Kind, c.spec.N),
+				w.violate(fmt.Sprintf("iii-no-reorg-notice/%s/n%d%s", c.spec.Kind, c.spec.N, objTag(c.spec.Obj)),
 					fmt.Sprintf("client %d holds a notification for block %d which was just disconnected, and was sent no reorg notice", i, b.height))
 			}
 		}
@@ -863,22 +896,24 @@ func (w *world) register(i int, hint, windowOp string) {
 	)
 	err, ok := w.call("Register", func() error {
 		if c.spec.isConf() {
+			o := &uni.obj[c.spec.Obj]
 			var txid *chainhash.Hash
 			if c.spec.Kind == "txid" {
-				txid = &uni.hT
+				txid = &o.hT
 			}
-			r, err := w.n.RegisterConf(txid, uni.pkT, c.spec.N, hv)
+			r, err := w.n.RegisterConf(txid, o.pkT, c.spec.N, hv)
 			if err != nil {
 				return err
 			}
 			c.conf, cdisp = r.Event, r.HistoricalDispatch
 			return nil
 		}
-		var op = &uni.O
+		o := &uni.obj[c.spec.Obj]
+		var op = &o.O
 		if c.spec.Kind == "sscript" {
 			op = nil
 		}
-		r, err := w.n.RegisterSpend(op, uni.pkO, hv)
+		r, err := w.n.RegisterSpend(op, o.pkO, hv)
 		if err != nil {
 			return err
 		}
@@ -898,12 +933,12 @@ func (w *world) register(i int, hint, windowOp string) {
 	switch {
 	case cdisp != nil:
 		rq.disp = &dispatch{start: cdisp.StartHeight, end: cdisp.EndHeight,
-			snapConf: w.chain.scanConf(cdisp.StartHeight, cdisp.EndHeight)}
+			snapConf: w.chain.scanConfObj(c.spec.Obj, cdisp.StartHeight, cdisp.EndHeight)}
 		w.st.HistoricalDispatches.Add(1)
 		w.logf("client %d registered (hint %d): historical dispatch [%d,%d]", i, hv, cdisp.StartHeight, cdisp.EndHeight)
 	case sdisp != nil:
 		rq.disp = &dispatch{start: sdisp.StartHeight, end: sdisp.EndHeight,
-			snapSpend: w.chain.scanSpend(sdisp.StartHeight, sdisp.EndHeight)}
+			snapSpend: w.chain.scanSpendObj(c.spec.Obj, sdisp.StartHeight, sdisp.EndHeight)}
 		w.st.HistoricalDispatches.Add(1)
 		w.logf("client %d registered (hint %d): historical dispatch [%d,%d]", i, hv, sdisp.StartHeight, sdisp.EndHeight)
 	default:
@@ -929,17 +964,14 @@ func (w *world) rescanDone(id string, stale bool) {
 	}
 	var err error
 	var ok bool
-	switch id {
-	case "ct", "cs":
-		det := w.chain.scanConf(d.start, hi)
+	isConf, keyed, obj := reqOf(id)
+	switch {
+	case isConf:
+		det := w.chain.scanConfObj(obj, d.start, hi)
 		if stale {
 			det = d.snapConf
 		}
-		var txid *chainhash.Hash
-		if id == "ct" {
-			txid = &uni.hT
-		}
-		r, _ := chainntnfs.NewConfRequest(txid, uni.pkT)
+		r := confReq(keyed, obj)
 		if det != nil && orphan {
 			w.feature("rescan-found-while-no-client/" + id)
 		}
@@ -952,15 +984,11 @@ func (w *world) rescanDone(id string, stale bool) {
 		}
 		err, ok = w.call("UpdateConfDetails", func() error { return w.n.UpdateConfDetails(r, det) })
 	default:
-		det := w.chain.scanSpend(d.start, hi)
+		det := w.chain.scanSpendObj(obj, d.start, hi)
 		if stale {
 			det = d.snapSpend
 		}
-		op := &uni.O
-		if id == "ss" {
-			op = nil
-		}
-		r, _ := chainntnfs.NewSpendRequest(op, uni.pkO)
+		r := spendReq(keyed, obj)
 		if det != nil && orphan {
 			w.feature("rescan-found-while-no-client/" + id)
 		}
@@ -1163,12 +1191,16 @@ func (w *world) drainConf(i int, c *client, ctx string, removed *refBlock) {
 			more = false
 		}
 	}
+	o := &uni.obj[c.spec.Obj]
 	tag := fmt.Sprintf("%s/n%d", c.spec.Kind, c.spec.N)
+	if c.spec.Obj != 0 {
+		tag += "/obj2"
+	}
 	for _, v := range negs {
 		w.nontrivial = true
 		w.st.NegativeConf.Add(1)
 		w.logf("client %d <- NegativeConf(%d)", i, v)
-		if ctx != "dis" || !blockHas(removed, "T") {
+		if ctx != "dis" || !blockHas(removed, o.txName) {
 			w.violate("spurious-NegativeConf/"+tag+"/"+ctx,
 				fmt.Sprintf("client %d received NegativeConf during %q although no block containing the watched tx was disconnected (chain %s)", i, ctx, w.chain.String()))
 			return
@@ -1188,7 +1220,7 @@ func (w *world) drainConf(i int, c *client, ctx string, removed *refBlock) {
 				fmt.Sprintf("client %d received Confirmed(height %d) while still holding an unretracted Confirmed(height %d)", i, d.BlockHeight, c.held))
 			return
 		}
-		b, idx := w.chain.confOf(0, maxHeight)
+		b, idx := w.chain.confOf(c.spec.Obj, 0, maxHeight)
 		switch {
 		case b == nil:
 			w.violate("i-Confirmed-but-not-on-chain/"+tag+"/"+ctx,
@@ -1199,7 +1231,7 @@ func (w *world) drainConf(i int, c *client, ctx string, removed *refBlock) {
 				fmt.Sprintf("client %d (numConfs %d) was told confirmed with only %d confirmations on the active chain %s", i, c.spec.N, w.chain.tip()-b.height+1, w.chain.String()))
 			return
 		case d.BlockHeight != b.height || d.BlockHash == nil || *d.BlockHash != b.hash ||
-			d.Tx == nil || d.Tx.TxHash() != uni.hT || d.TxIndex != uint32(idx):
+			d.Tx == nil || d.Tx.TxHash() != o.hT || d.TxIndex != uint32(idx):
 			w.violate("i-Confirmed-wrong-details/"+tag+"/"+ctx,
 				fmt.Sprintf("client %d got details height=%d hash=%s txindex=%d; active chain has the tx at height %d hash=%s txindex=%d", i, d.BlockHeight, bh, d.TxIndex, b.height, b.hash.String()[:8], idx))
 			return
@@ -1241,6 +1273,9 @@ func (w *world) drainSpend(i int, c *client, ctx string, removed *refBlock) {
 		}
 	}
 	tag := c.spec.Kind
+	if c.spec.Obj != 0 {
+		tag += "/obj2"
+	}
 	for k := 0; k < reorgs; k++ {
 		w.nontrivial = true
 		w.st.SpendReorg.Add(1)
@@ -1265,14 +1300,14 @@ func (w *world) drainSpend(i int, c *client, ctx string, removed *refBlock) {
 				fmt.Sprintf("client %d received Spend(height %d) while still holding an unretracted Spend(height %d)", i, d.SpendingHeight, c.held))
 			return
 		}
-		b, who := w.chain.spendOf(0, maxHeight)
+		b, who := w.chain.spendOf(c.spec.Obj, 0, maxHeight)
 		switch {
 		case b == nil:
 			w.violate("i-Spend-but-unspent/"+tag+"/"+ctx,
 				fmt.Sprintf("client %d was told the outpoint was spent at %d, but it is unspent on the active chain %s", i, d.SpendingHeight, w.chain.String()))
 			return
 		case uint32(d.SpendingHeight) != b.height || d.SpenderTxHash == nil || *d.SpenderTxHash != txByName(who).TxHash() ||
-			d.SpentOutPoint == nil || *d.SpentOutPoint != uni.O || d.SpenderInputIndex != 0 || d.SpendingTx == nil || d.SpendingTx.TxHash() != *d.SpenderTxHash:
+			d.SpentOutPoint == nil || *d.SpentOutPoint != uni.obj[c.spec.Obj].O || d.SpenderInputIndex != 0 || d.SpendingTx == nil || d.SpendingTx.TxHash() != *d.SpenderTxHash:
 			w.violate("i-Spend-wrong-details/"+tag+"/"+ctx,
 				fmt.Sprintf("client %d got spend details height=%d spender=%s; active chain has %s at height %d", i, d.SpendingHeight, sh, who, b.height))
 			return
@@ -1281,8 +1316,47 @@ func (w *world) drainSpend(i int, c *client, ctx string, removed *refBlock) {
 	}
 }
 
+// pairStats counts, for the evidence only, the height coincidences between registered
+// clients of different objects in the state just reached.
+func (w *world) pairStats() {
+	evh := func(c *client) uint32 {
+		var b *refBlock
+		if c.spec.isConf() {
+			b, _ = w.chain.confOf(c.spec.Obj, 0, maxHeight)
+		} else {
+			b, _ = w.chain.spendOf(c.spec.Obj, 0, maxHeight)
+		}
+		if b == nil {
+			return 0
+		}
+		return b.height
+	}
+	for i, a := range w.clients {
+		for _, b := range w.clients[i+1:] {
+			if a.spec.Obj == b.spec.Obj || !a.reg || !b.reg {
+				continue
+			}
+			ha, hb := evh(a), evh(b)
+			if ha == 0 || hb == 0 {
+				continue
+			}
+			if ha == hb {
+				w.st.PairSameEventHeight.Add(1)
+			}
+			if a.spec.isConf() && b.spec.isConf() {
+				if ma, mb := ha+a.spec.N-1, hb+b.spec.N-1; ma == mb && ma > w.chain.tip() {
+					w.st.PairSameMaturityPending.Add(1)
+				}
+			}
+		}
+	}
+}
+
 // endOfOp runs the state clauses (ii) and (iv) once an operation is complete.
 func (w *world) endOfOp() {
+	if w.up && len(w.reqs) > 1 {
+		w.pairStats()
+	}
 	if w.up && w.notifyPending == 0 {
 		for i, c := range w.clients {
 			if !c.reg {
@@ -1293,26 +1367,26 @@ func (w *world) endOfOp() {
 				continue // registration not complete: rescan outstanding
 			}
 			if c.spec.isConf() {
-				b, _ := w.chain.confOf(0, maxHeight)
+				b, _ := w.chain.confOf(c.spec.Obj, 0, maxHeight)
 				if b == nil || w.chain.tip()-b.height+1 < c.spec.N {
 					continue
 				}
 				w.st.IIAntecedent.Add(1)
 				w.nontrivial = true
 				if c.held == 0 {
-					w.violate(fmt.Sprintf("ii-not-told-Confirmed/%s/n%d/%s", c.spec.Kind, c.spec.N, w.lastKind()),
+					w.violate(fmt.Sprintf("ii-not-told-Confirmed/%s/n%d%s/%s", c.spec.Kind, c.spec.N, objTag(c.spec.Obj), w.lastKind()),
 						fmt.Sprintf("the tx has %d >= %d confirmations on the active chain %s, client %d's registration is complete, but it holds no Confirmed", w.chain.tip()-b.height+1, c.spec.N, w.chain.String(), i))
 					return
 				}
 			} else {
-				b, _ := w.chain.spendOf(0, maxHeight)
+				b, _ := w.chain.spendOf(c.spec.Obj, 0, maxHeight)
 				if b == nil {
 					continue
 				}
 				w.st.IIAntecedent.Add(1)
 				w.nontrivial = true
 				if c.held == 0 {
-					w.violate(fmt.Sprintf("ii-not-told-Spend/%s/%s", c.spec.Kind, w.lastKind()),
+					w.violate(fmt.Sprintf("ii-not-told-Spend/%s%s/%s", c.spec.Kind, objTag(c.spec.Obj), w.lastKind()),
 						fmt.Sprintf("the outpoint is spent at %d on the active chain %s, client %d's registration is complete, but it holds no Spend", b.height, w.chain.String(), i))
 					return
 				}
@@ -1328,10 +1402,10 @@ func (w *world) endOfOp() {
 		}
 		w.st.IVChecked.Add(1)
 		var b *refBlock
-		if id[0] == 'c' {
-			b, _ = w.chain.confOf(0, maxHeight)
+		if isConf, _, obj := reqOf(id); isConf {
+			b, _ = w.chain.confOf(obj, 0, maxHeight)
 		} else {
-			b, _ = w.chain.spendOf(0, maxHeight)
+			b, _ = w.chain.spendOf(obj, 0, maxHeight)
 		}
 		if b == nil {
 			continue
@@ -1348,6 +1422,13 @@ func (w *world) endOfOp() {
 			return
 		}
 	}
+}
+
+func objTag(obj int) string {
+	if obj == 0 {
+		return ""
+	}
+	return "/obj2"
 }
 
 // ---------------------------------------------------------------------------------
@@ -1369,7 +1450,7 @@ func (w *world) describe() string {
 	var sb strings.Builder
 	fmt.Fprintf(&sb, "chain%s up=%v nfy=%d rst=%d cache{%s}", w.chain.String(), w.up, w.notifyPending, w.restarts, w.cacheDump())
 	for i, c := range w.clients {
-		fmt.Fprintf(&sb, " c%d{%s/%d reg=%v held=%d%s neg=%v done=%v}", i, c.spec.Kind, c.spec.N, c.reg, c.held, c.heldWho, c.needNeg, c.done)
+		fmt.Fprintf(&sb, " c%d{%s%s/%d reg=%v held=%d%s neg=%v done=%v}", i, c.spec.Kind, objTag(c.spec.Obj), c.spec.N, c.reg, c.held, c.heldWho, c.needNeg, c.done)
 	}
 	for _, id := range w.reqIDs() {
 		r := w.reqs[id]
